@@ -46,6 +46,11 @@ def build_loom():
 def scenarios(tier):
     """(known, main queries, thread queries, query threads, preemption bound)"""
     out = []
+    # a launched command delta does not describe (`git status`): the guess stays in force
+    out.append((2, 1, 0, 1, "none"))
+    out.append((2, 2, 0, 1, "none"))
+    out.append((2, 1, 1, 1, "none"))
+    out.append((2, 1, 1, 2, "3"))
     for known in (0, 1):
         for mq in (1, 2, 3):
             out.append((known, mq, 0, 1, "none"))
@@ -149,6 +154,50 @@ def run_forced(order, known):
     return p.returncode, rendered_as, passed, p.stderr.decode()[-200:]
 
 
+def first_use_cases():
+    """The launched command is published before anything of the main thread asks for it: with a launched
+    `git diff --word-diff` (known) and a background guess `git diff`, options that word-diff disables must be
+    disabled from the first use on. Differential: output with and without the option is the same; and the forced
+    order "background guess first, then publication, then the first query" must be feasible."""
+    d = os.path.join(BUILD, "stubs_c20_wd")
+    os.makedirs(d, exist_ok=True)
+    p = os.path.join(d, "git")
+    with open(p, "w") as f:
+        f.write("#!/bin/sh\nprintf 'diff --git a/f b/f\\n--- a/f\\n+++ b/f\\n@@ -1,2 +1,2 @@\\n ctx\\na [-b-]{+c+} d\\n'\n")
+    os.chmod(p, os.stat(p).st_mode | stat.S_IXUSR | stat.S_IXGRP | stat.S_IXOTH)
+    base = ["--no-gitconfig", "--paging=never", "--detect-dark-light=never", "--width=60"]
+    out = []
+    n = 0
+    for opt in ("--line-numbers", "--side-by-side"):
+        for wd in ("--word-diff", "--color-words", "--word-diff-regex=x"):
+            for order in (None, ["T.lock", "T.done", "S.lock", "S.done", "Q.lock"]):
+                env = base_env()
+                env["PATH"] = d + ":" + env["PATH"]
+                env["DELTA_VERIF_PARENT_ARGS"] = "git diff"
+                if order:
+                    env["DELTA_VERIF_SCHED"] = ",".join(order)
+                a = subprocess.run([build.BIN] + base + [opt, "git", "diff", wd], env=env, stdin=subprocess.DEVNULL,
+                                   stdout=subprocess.PIPE, stderr=subprocess.PIPE, timeout=60)
+                b = subprocess.run([build.BIN] + base + ["git", "diff", wd], env=env, stdin=subprocess.DEVNULL,
+                                   stdout=subprocess.PIPE, stderr=subprocess.PIPE, timeout=60)
+                n += 2
+                err = None
+                if a.returncode == 97 or b.returncode == 97:
+                    err = "the first query of the main thread comes before the launched command is published (%s)" \
+                        % (a.stderr or b.stderr).decode()[-120:]
+                elif a.returncode != 0 or b.returncode != 0:
+                    err = "exit status %d / %d: %s" % (a.returncode, b.returncode, (a.stderr or b.stderr).decode()[-200:])
+                elif a.stdout != b.stdout:
+                    err = "`%s` is in effect although the launched command is `git diff %s` (stale guess `git diff`)" % (opt, wd)
+                if err:
+                    v = Violation("known-not-used-at-first-query", "delta %s git diff %s%s: %s"
+                                  % (opt, wd, " under order " + ",".join(order) if order else "", err),
+                                  None, None, b.stdout[:300], a.stdout[:300], {"DELTA_VERIF_SCHED": order})
+                    v.args = base + [opt, "git", "diff", wd]
+                    out.append(v)
+    return n, out
+
+
 ASSUMPTIONS = [
     "loom explores sequentially consistent interleavings plus its C11 model of the SeqCst atomics used; it "
     "does not model spurious condvar wake-ups (std's wait_while loop, reproduced verbatim in the harness shim, "
@@ -200,13 +249,15 @@ def main(tier):
                               "(exit %d)" % (",".join(order), got, want, status), None, None, want, got,
                               {"DELTA_VERIF_SCHED": ",".join(order)})
                 viols.append(v)
+    nfirst, fv = first_use_cases()
+    viols.extend(fv)
     best = {}
     for v in viols:
         best.setdefault(v.klass, v)
     viols = list(best.values())
     cov = {
         "states": total, "transitions": total,
-        "traces_validated_against_impl": nforced,
+        "traces_validated_against_impl": nforced + nfirst, "first_use_runs_on_binary": nfirst,
         "samples": samples[:6],
         "schedules_explored_by_loom": total, "loom_scenarios": len(scs),
         "forced_orders_replayed_on_binary": nforced,
